@@ -221,6 +221,59 @@ def mask_paths(f, region, entry, slc, stores):
     return paths
 
 
+def keep_complement(chk, f):
+    """--marginalize-keep K becomes the list of axes in 0..dimensions() that are NOT in K: recognised as
+    (0..d).filter(|i| !keep.contains(i)) and as `for i in 0..d { if !keep.contains(&i) { v.push(i) } }`"""
+    import iters as IT
+    prog = chk.prog
+    out = {"complement": False, "range": False, "where": f.loc(), "why": "the keep.contains(..) test inside an iteration over the axes was not found", "why_range": "?"}
+    its = IT.iterations(prog, f)
+    unit = [f] + prog.closures_of(f.path)
+    cont = [(g, b, t) for g in unit for b, t in g.calls() if callee_is(t["callee"], "alloc::vec::Vec::<T, A>::contains", "core::slice::<impl [T]>::contains")]
+    if len(cont) != 1:
+        return out
+    g, cb, ct = cont[0]
+    inside = [x for x in its if x.body is g and cb in x.blocks]
+    it = min(inside, key=lambda x: len(x.blocks)) if inside else None
+    if it is None:
+        return out
+    chk.fns_analysed.add(g.path)
+    out["where"] = it.loc()
+    tested = it.elem_path(ct["args"][1]) == ()
+    dst = an.call_dest_local(ct)
+    if it.kind == "closure" and it.consumer == "filter":
+        d0 = [d for d in g.defs.get(0, []) if d[0] == "assign"]
+        neg = len(d0) == 1 and d0[0][3]["k"] == "unop" and d0[0][3]["op"] == "Not" and op_local(d0[0][3]["operand"]) is not None and g.copy_root(op_local(d0[0][3]["operand"])) == dst
+        plain = len(list(g.calls())) <= 2 and not list(g.switches())
+        out["complement"] = tested and neg and plain
+        out["why"] = "filter(|i| !keep.contains(i)): tests the element=%s, negated=%s, nothing else in the closure=%s" % (tested, neg, plain)
+    elif it.kind == "loop":
+        pushes = [(b, t) for b, t in it.calls() if callee_name(t["callee"]).split("::")[-1] == "push" and len(t["args"]) == 2]
+        ok = False
+        for sb, s_ in an.switches_on_call_result(g, cb):
+            st = g.term(sb)
+            t_in, t_out = st["otherwise"], an.edge_target(st, 0)   # contained / not contained
+            subj = op_local(st["discr"])
+            dd = g.single_def(g.copy_root(subj)) if subj is not None else None
+            if dd and dd[0] == "assign" and dd[3]["k"] == "unop" and dd[3]["op"] == "Not":
+                t_in, t_out = t_out, t_in
+            ok = len(pushes) == 1 and an.dominated_by_edge(g, sb, t_out, pushes[0][0]) and it.elem_path(pushes[0][1]["args"][1]) == () and \
+                len(it.switches()) == 1 and not it.early_exits()
+        out["complement"] = tested and ok
+        out["why"] = "for i in axes { if !keep.contains(&i) { v.push(i) } }: tests the element=%s, pushes exactly the axes not contained=%s" % (tested, ok)
+    ch = it.chain()
+    src = ch[-1][1]
+    d = f.single_def(f.copy_root(src[0])) if src is not None and not src[1] else None
+    names = IT.chain_names(ch)
+    if d and d[0] == "assign" and d[3]["k"] == "aggregate" and d[3].get("adt") == "core::ops::range::Range":
+        lo = const_val(d[3]["ops"][0])
+        hl = op_local(d[3]["ops"][1])
+        hd = f.single_def(f.copy_root(hl)) if hl is not None else None
+        out["range"] = lo == 0 and hd is not None and hd[0] == "call" and callee_is(hd[2]["callee"], SP + "dimensions") and not [n for n in names if n != "filter"]
+        out["why_range"] = "Range(%s, %s), adaptors %s" % (lo, callee_name(hd[2]["callee"]) if hd and hd[0] == "call" else "?", names)
+    return out
+
+
 def check_C13(chk):
     chk.explanation = (
         "Structural clauses of C13 on view::View::run (loop-free): (a) order: for each adjacent pair of marginalize, project, mask, normalize, "
@@ -232,8 +285,7 @@ def check_C13(chk):
     f = chk.fn(VIEW_RUN)
     if f is None:
         return
-    loops = [b for b in f.nodes() if f.reaches(b, b)]
-    chk.ob("C13.a", "View::run/loop-free", not loops, f.loc(), "the order argument relies on View::run having no loops (cyclic blocks: %s)" % loops)
+    cyc = {b for b in f.nodes() if f.reaches(b, b)}
     M = an.calls(f, MARG)
     Pj = an.calls(f, PROJ)
     Nm = an.calls(f, NORM)
@@ -250,6 +302,8 @@ def check_C13(chk):
     slc, stores = mask_stores(chk, f, mregion)
     K = sorted({b for b, w, v in stores})
     steps = [("marginalize", [M[0][0]]), ("project", [Pj[0][0]]), ("mask", K), ("normalize", [Nm[0][0]]), ("write", [W[0][0]])]
+    looped = sorted(nm for nm, bs in steps for b in bs if b in cyc) + (["mask-region"] if cyc & mregion else [])
+    chk.ob("C13.a", "View::run/loop-free", not looped, f.loc(), "no step of the pipeline sits inside a loop (the order argument is over single occurrences; loops that only prepare an argument are fine): %s" % looped)
     chk.saw_calls(5)
     for i in range(len(steps) - 1):
         for j in range(i + 1, len(steps)):
@@ -395,31 +449,9 @@ def check_C13(chk):
     chk.ob("C13.c", "View::run/mask-region-has-no-other-effect", not other_writes, f.loc(msw[0]), "other calls in the mask step: %s" % other_writes)
 
     # (d) keep -> complement
-    c0 = None
-    for c in chk.prog.closures_of(VIEW_RUN):
-        if c.locals[0]["ty"] == "bool":
-            c0 = c
-    ok = False
-    why = "filter closure not found"
-    if c0 is not None:
-        chk.fns_analysed.add(c0.path)
-        cont = [t for b, t in c0.calls() if callee_is(t["callee"], "alloc::vec::Vec::<T, A>::contains", "core::slice::<impl [T]>::contains")]
-        d0 = [d for d in c0.defs.get(0, []) if d[0] == "assign"]
-        neg = len(d0) == 1 and d0[0][3]["k"] == "unop" and d0[0][3]["op"] == "Not"
-        ok = len(cont) == 1 and neg and len(list(c0.calls())) <= 2 and not list(c0.switches())
-        why = "closure = !keep.contains(i): contains calls=%d, negated=%s" % (len(cont), neg)
-    chk.ob("C13.d", "View::run/keep->complement", ok, c0.loc() if c0 is not None else f.loc(), why)
-    flt = an.calls(f, "core::iter::traits::iterator::Iterator::filter")
-    ok = False
-    if len(flt) == 1:
-        l = op_local(flt[0][1]["args"][0])
-        d = f.single_def(f.copy_root(l)) if l is not None else None
-        if d and d[0] == "assign" and d[3]["k"] == "aggregate" and d[3].get("adt") == "core::ops::range::Range":
-            lo = const_val(d[3]["ops"][0])
-            hl = op_local(d[3]["ops"][1])
-            hd = f.single_def(f.copy_root(hl)) if hl is not None else None
-            ok = lo == 0 and hd is not None and hd[0] == "call" and callee_is(hd[2]["callee"], SP + "dimensions")
-    chk.ob("C13.d", "View::run/complement-over-0..dimensions", ok, f.loc(), "the complement is taken over all axes 0..scs.dimensions()")
+    kc = keep_complement(chk, f)
+    chk.ob("C13.d", "View::run/keep->complement", kc["complement"], kc["where"], kc["why"])
+    chk.ob("C13.d", "View::run/complement-over-0..dimensions", kc["range"], kc["where"], "the complement is taken over all axes 0..scs.dimensions() (%s)" % kc["why_range"])
     # keep arm vs remove arm: remove is passed through unchanged
     # (e) normalize divides by the sum: re-use C06.c's normalize obligation
     import rules_stat
